@@ -102,6 +102,7 @@ def factory(noise: bool, seed: str, addresses: tuple[str, ...]) -> LifeHarness:
         addresses=addresses,
         dns_answer=("10.0.0.7", "10.0.0.8"),
         legal_only=True,
+        etimedout=True,
     )
 
 
